@@ -42,6 +42,8 @@ CLAIMED = {
                 note="NOT decided: that the event view equals the disk at quiescence (kernel, pacing condition). E8 kernel contract, E1, C20. Known finding (recorded, not repaired): a directory moved in from outside is never watched (the TODO in read_events).", ref="4/C02"),
     "C07": dict(text="PARTIAL. Exception-freedom of every library thread body: one obligation per subscript/pop/del/unpack/None-attribute in Inotify.read_events (incl. _recursive_simulate and the re-key loop), InotifyBuffer._group_events/run, InotifyEmitter.queue_events, PollingEmitter.queue_events, DirectorySnapshot.walk/__init__, with inotify_add_watch / stat / listdir failing at every call; invariant 'every live kernel descriptor has a path entry'; root deletion => exactly one DirDeletedEvent(root) + stop on both back ends, reader loop ends.",
                 note="NOT decided: 'later changes are reported' (C02 + liveness). E8 kernel contract (IN_IGNORED last for its descriptor; descriptors may be re-issued). Two KeyErrors found on the original tree were repaired by fix: commits.", ref="4/C07"),
+    "C06": dict(text="PARTIAL: NECESSARY CONDITIONS ONLY - termination itself is not proved. W1 every stop path sets the flag and then performs the wake-up of each blocking wait, without raising before (BaseThread.stop, EventDispatcher.stop/__init__ (unbounded queue + sentinel), BaseObserver.on_thread_stop, InotifyEmitter/InotifyBuffer.on_thread_stop, InotifyBuffer.close, Inotify.close, DelayedQueue.close, polling sleeps on the stop flag, debouncer stop, ProcessWatcher timed waits); W2 each run() leaves its loop once the flag is set and its blocking call returned; W3 wait-predicate discipline at both condition-variable waits; W4 lock levels checked on the lock-acquisition graph extracted from the real AST + join-under-lock rule.",
+                note="'No call blocks forever' / 'join() returns' are liveness properties of all interleavings and are NOT decided by contracts; fair scheduling, the kernel waking poll(), and user code are assumed. The callee lock summaries of W4 are read off the callee contracts.", ref="4/C06"),
 }
 
 NOT_APPLICABLE = {
